@@ -258,6 +258,18 @@ Example C04_factories_example :
 Proof. exact ex_factories. Qed.
 Print Assumptions C04_factories_example.
 
+(* the companion of C03_flags_inherited: None on a rule means the map's setting; an explicit value - False included - and the
+   other options (websocket, alias, methods, defaults) survive every factory: a factory rewrites one attribute (Rule.empty) *)
+Theorem C04_factories_keep_options : forall r,
+  (forall pre, options (submount pre r) = options r)
+  /\ (forall d, options (with_dom d r) = options r)
+  /\ (forall f, options (with_endpoint f r) = options r)
+  /\ (forall ctx r', template ctx r = Some r' -> options r' = options r)
+  /\ (forall m pre, rstrict m (submount pre r) = rstrict m r /\ rmerge m (submount pre r) = rmerge m r)
+  /\ (forall m d, rstrict m (with_dom d r) = rstrict m r /\ rmerge m (with_dom d r) = rmerge m r).
+Proof. exact factories_keep_options. Qed.
+Print Assumptions C04_factories_keep_options.
+
 (* EndpointPrefix (an injective renaming f of endpoints): building f(e) in the prefixed map is building e in the inner map *)
 Theorem C04_endpoint_prefix : forall f, (forall x y, f x = f y -> x = y) -> forall m a e vals meth fe,
   adapter_build (map_rules m (map (with_endpoint f) (m_rules m))) a (f e) vals meth fe = adapter_build m a e vals meth fe.
